@@ -5,11 +5,79 @@ assignments to locals / fields.  Unknown conditions branch both ways."""
 from .facts import strip_targs
 
 
+RESOLVER = {"F": None}        # facts, set by the rule that wants calls of Status helpers evaluated
+
+
+def _status_code_of_return(e):
+    """'ok' | error-code name | None for the expression of a `return` in a Status function."""
+    from .facts import walk
+    if not isinstance(e, dict):
+        return None
+    for n in walk(e):
+        if n.get("k") == "lit" and isinstance(n.get("n"), str) and n["n"].startswith("draco::Status::"):
+            c = n["n"].rsplit("::", 1)[-1]
+            return "ok" if c == "OK" else c
+    for n in walk(e):
+        if n.get("k") in ("call", "ctor") and strip_targs(n.get("fn") or "") in ("draco::OkStatus",):
+            return "ok"
+        if n.get("k") == "ctor" and strip_targs(n.get("fn") or "") == "draco::Status::Status" and not n.get("args"):
+            return "ok"
+    return None
+
+
+def eval_status_call(call, env, depth=0):
+    """Evaluate a call of a Status-returning draco function with a body under env: 'ok', an error code
+    name, or None when it depends on something unknown."""
+    F = RESOLVER["F"]
+    if F is None or depth > 2 or not isinstance(call, dict) or call.get("k") != "call":
+        return None
+    if "Status" not in (call.get("ret") or ""):
+        return None
+    tg = [t for t in F.targets(call) if not call.get("virt")]
+    if len(tg) != 1:
+        return None
+    callee = tg[0]
+    cenv = {}
+    for p, a in zip(callee.params, call.get("args") or []):
+        if "d" in p:
+            cenv[("v", p["d"])] = ev(a, env)
+    for k_, v_ in env.items():
+        if k_[0] == "f":
+            cenv[k_] = v_          # fields of the same object (member helpers)
+    codes = set()
+
+    def on_block(b, e_):
+        for x in b.ev:
+            if x["k"] == "ret":
+                c = _status_code_of_return(x.get("e"))
+                if c is None:
+                    t = x.get("e")
+                    while isinstance(t, dict) and t.get("k") in ("copy", "icast"):
+                        t = t.get("e")
+                    if isinstance(t, dict) and t.get("k") == "var" and "d" in t:
+                        c = e_.get(("st", t["d"]))
+                codes.add(c)
+        return True
+    explore(callee, cenv, on_block, max_states=400)
+    if len(codes) == 1 and None not in codes:
+        return next(iter(codes))
+    return None
+
+
 def ev(t, env):
     """int value or None (unknown)."""
     if not isinstance(t, dict):
         return None
     k = t.get("k")
+    if k == "call" and strip_targs(t.get("fn") or "") in ("draco::Status::ok", "draco::StatusOr::ok"):
+        o = t.get("obj")
+        while isinstance(o, dict) and o.get("k") in ("copy", "icast"):
+            o = o.get("e")
+        if isinstance(o, dict) and o.get("k") == "var" and "d" in o:
+            st = env.get(("st", o["d"]))
+            if st is not None:
+                return 1 if st == "ok" else 0
+        return None
     if "v" in t and k in ("lit", "icast", "cast", "bin", "un", "defarg") and t.get("v") is not None:
         return t["v"]
     if k == "var":
@@ -79,6 +147,16 @@ def _assign(ev_, env):
     k = ev_["k"]
     if k == "decl" and "e" in ev_ and "d" in ev_.get("var", {}):
         env[("v", ev_["var"]["d"])] = ev(ev_["e"], env)
+        if "Status" in (ev_["var"].get("t") or ""):
+            c = ev_["e"]
+            while isinstance(c, dict) and c.get("k") in ("copy", "icast"):
+                c = c.get("e")
+            if isinstance(c, dict) and c.get("k") == "call" and strip_targs(c.get("fn") or "") == "draco::ToStatus" \
+                    and c.get("args"):
+                c = c["args"][0]
+                while isinstance(c, dict) and c.get("k") in ("copy", "icast"):
+                    c = c.get("e")
+            env[("st", ev_["var"]["d"])] = eval_status_call(c, env)
     elif k == "expr" and isinstance(ev_.get("e"), dict):
         t = ev_["e"]
         if t.get("k") == "bin" and t.get("op") == "=":
